@@ -444,19 +444,22 @@ def moveAll (w : World) (src dst : Nat) (count : Nat) : World × Nat :=
   let w := (srcRows.zipIdx).foldl (fun w (r, i) => w.setIndex r.ent.id (some ⟨dst, start + i⟩)) w
   (w, start)
 
+/-- The relation target of the destination table in `exchangeArch` (the liveness of a given
+    target is checked once, up front, by `exchangeBatchNoNotify`). -/
+def archTarget (w : World) (mask : Mask) (rel : Option CompId) (target : Entity) (src : Nat) (rem : List CompId) : Except Panic Entity :=
+  match rel with
+  | some r =>
+    if !Mask.get mask r then .error .relMissing
+    else if !Mask.get w.reg.isRel r then .error .notRel
+    else .ok target
+  | none => .ok (w.keptTarget src rem)
+
 /-- `exchangeArch`. -/
 def exchangeArch (w : World) (src : Nat) (count : Nat) (add rem : List CompId) (rel : Option CompId) (target : Entity) : World × Except Panic BatchEntry :=
   match exchangeMask (w.tableMask src) add rem with
   | .error p => (w, .error p)
   | .ok mask =>
-    let tgt : Except Panic Entity :=
-      match rel with
-      | some r =>
-        if !Mask.get mask r then .error .relMissing
-        else if !Mask.get w.reg.isRel r then .error .notRel
-        else .ok target
-      | none => .ok (w.keptTarget src rem)
-    match tgt with
+    match w.archTarget mask rel target src rem with
     | .error p => (w, .error p)
     | .ok target =>
       let (w, r) := w.findOrCreateTable src add rem target
